@@ -12,7 +12,9 @@
  * content followed by the answers concatenated in geographic order UP ++ ACROSS ++ DOWN, each answer in its own order. */
 #include "gen.h"
 
-#define SEGCAP 2   /* links per local-route answer (2 = enough to see a reordering inside one answer) */
+#ifndef SEGCAP
+#define SEGCAP 2
+#endif /* links per local-route answer (2 = enough to see a reordering inside one answer) */
 #define MAXCALLS 8 /* length of the ghost log */
 #define NZ 5       /* zones z0 (root); z1, z2 (children of z0); z3, z4 (children of z1 or z2): 3 levels */
 #define NNP 10     /* netpoints: g_np[i], i < NZ, is the netpoint of zone i; the others are hosts / routers / gateways */
@@ -22,7 +24,7 @@
 
 struct seg {
   size_t n;
-  struct StandardLinkImpl* l[SEGCAP];
+  struct StandardLinkImpl* l[2]; /* SEGCAP <= 2 */
   struct NetPoint* gw_src;
   struct NetPoint* gw_dst;
   double lat;
@@ -48,6 +50,7 @@ _Bool g_bypass;
 struct seg g_bseg;
 struct query g_bq;
 int g_bcalls;
+double g_blatval; /* accumulator value left by a bypass (arbitrary) */
 
 struct StandardLinkImpl* g_lbuf[LBUF];
 struct vf_seq_StandardLinkImplP g_links;
@@ -113,7 +116,7 @@ _Bool NetZoneImpl__get_bypass_route(struct NetZoneImpl* self, struct NetPoint* s
     __CPROVER_ensures(!g_bypass || links->n == __CPROVER_old(links->n) + g_bseg.n)
     __CPROVER_ensures(!(g_bypass && 0 < g_bseg.n) || links->d[__CPROVER_old(links->n)] == g_bseg.l[0])
     __CPROVER_ensures(!(g_bypass && 1 < g_bseg.n) || links->d[__CPROVER_old(links->n) + 1] == g_bseg.l[1])
-    __CPROVER_ensures(!g_bypass || *lat == __CPROVER_old(*lat) + g_bseg.lat);
+    __CPROVER_ensures(!g_bypass || *lat == g_blatval);
 
 /* static add_latency (std::accumulate with a generic lambda: outside the cxx2c subset): assumed to add the link
    latencies one by one, in order, to *latency when latency != NULL */
@@ -211,7 +214,7 @@ void find_common_ancestors(struct NetPoint* src, struct NetPoint* dst, struct Ne
     __CPROVER_ensures(SAME_ZONE || vf_exc != 0 || g_da == (CI + 1 < ODN ? ODP_AT(CI + 1) : g_ca))
     /*@ fca_dst_ancestor_is_child_on_dst_path */;
 
-#define SAMEPFX(k) (!((k) < i) || g_spb[k] == g_dpb[k])
+#define SAMEPFX(k) (!((k) < i) || src_path->d[k] == dst_path->d[k])
 #define VF_LOOP_find_common_ancestors_0                                                                                \
   __CPROVER_assigns(i, common_ancestor_index)                                                                          \
       __CPROVER_loop_invariant(i <= min_size && (i == 0 ? common_ancestor_index == 0 : common_ancestor_index == i - 1) && \
@@ -409,6 +412,23 @@ static _Bool iz_accs(size_t c, size_t nc, double* acc)
                : (((x) + SG(c, 0).lat) + SG(c, 1).lat) + SG(c, 2).lat)
 #endif
 
+/* result vector d[0..n) after the chain: length, EVERY position (at most 3 answers of SEGCAP links), old content kept
+   (before the chain when going down, after it when going up; n0 <= 1 old links) */
+static _Bool iz_links_ok(size_t c, size_t nc, _Bool down, size_t n0, struct StandardLinkImpl** d, size_t n,
+                         struct StandardLinkImpl* old0)
+{
+  size_t tot  = seg_tot(c, nc);
+  size_t base = down ? n0 : 0;
+  if (n != n0 + tot)
+    return 0;
+#define IZ_AT(j)                                                                                                       \
+  if ((j) < tot && d[base + (j)] != el_chain(c, nc, down, (j)))                                                        \
+    return 0;
+  IZ_AT(0) IZ_AT(1) IZ_AT(2) IZ_AT(3) IZ_AT(4) IZ_AT(5)
+  if (n0 >= 1 && d[down ? 0 : tot] != old0)
+    return 0;
+  return 1;
+}
 #define ZP(k) (zones_path->d[k])
 #define IZA __CPROVER_old(g_ncalls), netpoint, gateway, gateway_to_netpoint, ZP(0), ZP(1), zones_path->n
 #define IZX(M) M(__CPROVER_old(g_ncalls), netpoint, gateway, gateway_to_netpoint, ZP(0), ZP(1), zones_path->n)
@@ -420,30 +440,175 @@ void NetZoneImpl__get_interzone_route(struct NetPoint* netpoint, struct NetPoint
     __CPROVER_requires(vf_exc == 0 && g_ncalls + 3 <= MAXCALLS && IS_NP(netpoint) && IS_NP(gateway) &&
                        ZN(netpoint) != NULL && ZN(gateway) != NULL && latency != NULL && links->h == 0 &&
                        links->n <= 1 && links->n + 3 * SEGCAP <= links->cap && links->cap <= LBUF &&
-                       zones_path->h == 0 && zones_path->n <= 2 && zones_path->cap >= 2 && gk < 3 * SEGCAP && WF_ZONES &&
+                       zones_path->h == 0 && zones_path->n <= 2 && zones_path->cap >= 2 && WF_ZONES &&
                        (zones_path->n < 1 || IS_Z(ZP(0))) && (zones_path->n < 2 || IS_Z(ZP(1))))
-    __CPROVER_assigns(vf_exc, g_ncalls, __CPROVER_object_whole(g_q), links->n, __CPROVER_object_whole(links->d), *latency)
+    __CPROVER_assigns(vf_exc, g_ncalls, g_q[g_ncalls], g_q[g_ncalls + 1], g_q[g_ncalls + 2], links->n,
+                      __CPROVER_object_whole(links->d), *latency)
     __CPROVER_ensures((vf_exc == VF_EXC_ABORT) == IZX(IZ_ABORTS)) /*@ iz_aborts_iff_path_exhausted */
     __CPROVER_ensures((vf_exc != 0) == IZX(IZ_FAIL))              /*@ iz_fails_iff_no_zone_or_no_gateway */
+    __CPROVER_ensures(vf_exc == 0 || vf_exc == VF_EXC_ABORT || vf_exc == VF_EXC_AssertionError)
     __CPROVER_ensures(vf_exc != 0 || g_ncalls == __CPROVER_old(g_ncalls) + IZ_NCX) /*@ iz_number_of_local_routes */
     __CPROVER_ensures(vf_exc != 0 || IZX(IZ_QUERIES)) /*@ iz_asks_each_crossed_zone_between_its_gateways */
-    __CPROVER_ensures(vf_exc != 0 || links->n == ON0 + TOT(__CPROVER_old(g_ncalls), IZ_NCX)) /*@ iz_length_is_sum */
-    __CPROVER_ensures(vf_exc != 0 || !gateway_to_netpoint || !(gk < TOT(__CPROVER_old(g_ncalls), IZ_NCX)) ||
-                      links->d[ON0 + gk] == EL_DOWN(__CPROVER_old(g_ncalls), IZ_NCX, gk))
+    __CPROVER_ensures(vf_exc != 0 || !gateway_to_netpoint ||
+                      iz_links_ok(__CPROVER_old(g_ncalls), IZ_NCX, 1, ON0, links->d, links->n, __CPROVER_old(links->d[0])))
     /*@ iz_down_appends_answers_in_call_order */
-    __CPROVER_ensures(vf_exc != 0 || !gateway_to_netpoint || ON0 == 0 || links->d[0] == __CPROVER_old(links->d[0]))
-    /*@ iz_down_keeps_old_prefix */
-    __CPROVER_ensures(vf_exc != 0 || gateway_to_netpoint || !(gk < TOT(__CPROVER_old(g_ncalls), IZ_NCX)) ||
-                      links->d[gk] == EL_UP(__CPROVER_old(g_ncalls), IZ_NCX, gk))
+    __CPROVER_ensures(vf_exc != 0 || gateway_to_netpoint ||
+                      iz_links_ok(__CPROVER_old(g_ncalls), IZ_NCX, 0, ON0, links->d, links->n, __CPROVER_old(links->d[0])))
     /*@ iz_up_prepends_answers_innermost_first */
-    __CPROVER_ensures(vf_exc != 0 || gateway_to_netpoint || ON0 == 0 ||
-                      links->d[TOT(__CPROVER_old(g_ncalls), IZ_NCX)] == __CPROVER_old(links->d[0]))
-    /*@ iz_up_keeps_old_content_after */
     __CPROVER_ensures(vf_exc != 0 || iz_accs(__CPROVER_old(g_ncalls), IZ_NCX, latency))
     /*@ iz_every_answer_adds_to_the_callers_latency */
     __CPROVER_ensures(vf_exc != 0 || *latency == (IZ_NCX == 0 ? __CPROVER_old(*latency)
                                                               : g_latval[__CPROVER_old(g_ncalls) + IZ_NCX - 1]))
     /*@ iz_latency_changed_by_the_answers_only */;
+
+/* ---------------- get_global_route_with_netzones --------------------------------------------------------------- */
+/* Zone tree of the harness: depth <= 3 (z0; z1, z2 below z0; z3, z4 below z1 or z2). The expectations are written from the
+   tree (parent_ pointers), not from the paths the code computes. */
+#define PAR(z) ((z)->parent_)
+#define WF_TREE                                                                                                        \
+  (g_z[0].parent_ == NULL && g_z[1].parent_ == &g_z[0] && g_z[2].parent_ == &g_z[0] &&                                 \
+   (g_z[3].parent_ == &g_z[1] || g_z[3].parent_ == &g_z[2]) && (g_z[4].parent_ == &g_z[1] || g_z[4].parent_ == &g_z[2]) && \
+   ZN(&g_np[0]) == NULL && ZN(&g_np[1]) == &g_z[0] && ZN(&g_np[2]) == &g_z[0] && ZN(&g_np[3]) == g_z[3].parent_ &&        \
+   ZN(&g_np[4]) == g_z[4].parent_ && IS_Z(ZN(&g_np[5])) && IS_Z(ZN(&g_np[6])) && IS_Z(ZN(&g_np[7])) &&                    \
+   IS_Z(ZN(&g_np[8])) && IS_Z(ZN(&g_np[9])))
+static _Bool is_anc(struct NetZoneImpl* a, struct NetZoneImpl* z) /* a is z or one of its ancestors */
+{
+  if (a == NULL || z == NULL)
+    return 0;
+  if (a == z)
+    return 1;
+  if (PAR(z) == NULL)
+    return 0;
+  if (PAR(z) == a)
+    return 1;
+  if (PAR(PAR(z)) == NULL)
+    return 0;
+  return PAR(PAR(z)) == a;
+}
+struct gx {
+  struct NetZoneImpl *ca, *sa, *da; /* lowest common ancestor zone; its child zone (or itself) on src's / dst's side */
+  struct NetZoneImpl *sp0, *dp0;    /* zones strictly below sa / da down to the zone of src / dst (at most one here) */
+  size_t spn, dpn;
+  int exc;                          /* expected vf_exc */
+  size_t upc, upnc, dnc, dnnc;      /* first log index and number of local routes of the UP and DOWN chains */
+  size_t ncalls;                    /* 1 (across, or the single zone) + upnc + dnnc */
+};
+static struct gx glob_expect(size_t c, struct NetPoint* src, struct NetPoint* dst)
+{
+  struct gx r            = {0};
+  struct NetZoneImpl* zs = ZN(src);
+  struct NetZoneImpl* zd = ZN(dst);
+  r.ca  = is_anc(zs, zd) ? zs : is_anc(PAR(zs), zd) ? PAR(zs) : PAR(PAR(zs));
+  r.sa  = zs == r.ca ? r.ca : PAR(zs) == r.ca ? zs : PAR(zs);
+  r.da  = zd == r.ca ? r.ca : PAR(zd) == r.ca ? zd : PAR(zd);
+  r.sp0 = zs, r.spn = (zs != r.ca && zs != r.sa) ? 1 : 0;
+  r.dp0 = zd, r.dpn = (zd != r.ca && zd != r.da) ? 1 : 0;
+  r.upc = c + 1, r.dnc = c + 1;
+  if (zs == zd) {
+    r.ncalls = 1;
+    return r;
+  }
+  if (r.sa != r.ca) { /* UP: from src to the gateway the ACROSS answer names on src's side */
+    if (g_seg[c].gw_src == NULL) {
+      r.exc = VF_EXC_ABORT;
+      return r;
+    }
+    struct izx u = iz_expect(r.upc, src, g_seg[c].gw_src, 0, r.sp0, r.sp0, r.spn);
+    if (u.aborts || u.throws) {
+      r.exc = u.aborts ? VF_EXC_ABORT : VF_EXC_AssertionError;
+      return r;
+    }
+    r.upnc = u.nc;
+  }
+  r.dnc = r.upc + r.upnc;
+  if (r.da != r.ca) { /* DOWN: from the gateway named on dst's side to dst */
+    if (g_seg[c].gw_dst == NULL) {
+      r.exc = VF_EXC_ABORT;
+      return r;
+    }
+    struct izx w = iz_expect(r.dnc, dst, g_seg[c].gw_dst, 1, r.dp0, r.dp0, r.dpn);
+    if (w.aborts || w.throws) {
+      r.exc = w.aborts ? VF_EXC_ABORT : VF_EXC_AssertionError;
+      return r;
+    }
+    r.dnnc = w.nc;
+  }
+  r.ncalls = 1 + r.upnc + r.dnnc;
+  return r;
+}
+/* the log: ACROSS asked to the common ancestor between the two child zones (or the end points living directly in it), then
+   the UP chain, then the DOWN chain; every call got the caller's latency accumulator */
+static _Bool glob_queries_ok(size_t c, struct NetPoint* src, struct NetPoint* dst, double* acc)
+{
+  struct gx r = glob_expect(c, src, dst);
+  if (r.exc)
+    return 1;
+  if (g_q[c].acc != acc)
+    return 0;
+  if (ZN(src) == ZN(dst))
+    return Q_IS(c, ZN(src), src, dst);
+  if (!Q_IS(c, r.ca, r.sa != r.ca ? r.sa->netpoint_ : src, r.da != r.ca ? r.da->netpoint_ : dst))
+    return 0;
+  if (r.sa != r.ca &&
+      !(iz_queries(r.upc, src, g_seg[c].gw_src, 0, r.sp0, r.sp0, r.spn) && iz_accs(r.upc, r.upnc, acc)))
+    return 0;
+  if (r.da != r.ca &&
+      !(iz_queries(r.dnc, dst, g_seg[c].gw_dst, 1, r.dp0, r.dp0, r.dpn) && iz_accs(r.dnc, r.dnnc, acc)))
+    return 0;
+  return 1;
+}
+/* the route: old content, then UP (innermost zone first), then ACROSS, then DOWN (outermost zone first); each answer in
+   its own order; every position checked (at most 2 + 1 + 2 answers of SEGCAP links) */
+static _Bool glob_links_ok(size_t c, struct NetPoint* src, struct NetPoint* dst, size_t n0, struct StandardLinkImpl** d,
+                           size_t n, struct StandardLinkImpl* old0)
+{
+  struct gx r = glob_expect(c, src, dst);
+  if (r.exc)
+    return 1;
+  size_t ul = seg_tot(r.upc, r.upnc), xn = g_seg[c].n, dl = seg_tot(r.dnc, r.dnnc);
+  if (n != n0 + ul + xn + dl)
+    return 0;
+#define GL_AT(j)                                                                                                       \
+  if ((j) < ul + xn + dl &&                                                                                            \
+      d[n0 + (j)] != ((j) < ul        ? el_chain(r.upc, r.upnc, 0, (j))                                                \
+                      : (j) < ul + xn ? g_seg[c].l[(j)-ul]                                                             \
+                                      : el_chain(r.dnc, r.dnnc, 1, (j)-ul - xn)))                                      \
+    return 0;
+  GL_AT(0) GL_AT(1) GL_AT(2) GL_AT(3) GL_AT(4) GL_AT(5) GL_AT(6) GL_AT(7) GL_AT(8) GL_AT(9)
+  if (n0 >= 1 && d[0] != old0)
+    return 0;
+  return 1;
+}
+#define GX glob_expect(__CPROVER_old(g_ncalls), src, dst)
+#define GN0 __CPROVER_old(g_links.n)
+void NetZoneImpl__get_global_route_with_netzones(struct NetPoint* src, struct NetPoint* dst,
+                                                 struct vf_seq_StandardLinkImplP* links, double* latency,
+                                                 struct vf_set_NetZoneImplP* netzones)
+    __CPROVER_requires(vf_exc == 0 && g_ncalls <= 1 && g_bcalls == 0 && IS_NP(src) && IS_NP(dst) && src != &g_np[0] &&
+                       dst != &g_np[0] && links == &g_links && g_links.d == g_lbuf && g_links.h == 0 &&
+                       g_links.n <= 1 && g_links.cap == LBUF && latency == &g_lat && netzones == &g_netzones &&
+                       g_netzones.k == g_nzbuf && g_netzones.n <= 1 && g_netzones.cap == LBUF && WF_ZONES && WF_TREE &&
+                       g_bseg.n <= SEGCAP)
+    __CPROVER_assigns(vf_exc, g_ncalls, __CPROVER_object_whole(g_q), g_bcalls, g_bq, g_links,
+                      __CPROVER_object_whole(g_lbuf), g_lat, g_netzones.n, __CPROVER_object_whole(g_nzbuf))
+    __CPROVER_ensures(g_links.d == g_lbuf && g_links.h == 0 && g_links.cap == LBUF) /*@ glob_result_vector_still_owns_its_buffer */
+    __CPROVER_ensures(g_bcalls == 1 && g_bq.z == GX.ca && g_bq.s == src && g_bq.d == dst)
+    /*@ glob_bypass_is_asked_to_the_lowest_common_ancestor */
+    __CPROVER_ensures(!g_bypass ||
+                      (vf_exc == 0 && g_ncalls == __CPROVER_old(g_ncalls) && g_links.n == GN0 + g_bseg.n &&
+                       (!(0 < g_bseg.n) || g_lbuf[GN0] == g_bseg.l[0]) && (!(1 < g_bseg.n) || g_lbuf[GN0 + 1] == g_bseg.l[1]) &&
+                       (GN0 == 0 || g_lbuf[0] == __CPROVER_old(g_lbuf[0])) && g_lat == g_blatval))
+    /*@ glob_declared_bypass_is_the_whole_route */
+    __CPROVER_ensures(g_bypass || vf_exc == GX.exc) /*@ glob_fails_iff_a_gateway_is_missing_or_a_chain_fails */
+    __CPROVER_ensures(g_bypass || vf_exc != 0 || g_ncalls == __CPROVER_old(g_ncalls) + GX.ncalls)
+    /*@ glob_one_local_route_per_crossed_zone */
+    __CPROVER_ensures(g_bypass || vf_exc != 0 || glob_queries_ok(__CPROVER_old(g_ncalls), src, dst, latency))
+    /*@ glob_asks_across_then_up_then_down_with_the_right_end_points */
+    __CPROVER_ensures(g_bypass || vf_exc != 0 ||
+                      glob_links_ok(__CPROVER_old(g_ncalls), src, dst, GN0, g_lbuf, g_links.n, __CPROVER_old(g_lbuf[0])))
+    /*@ glob_route_is_old_then_up_then_across_then_down */
+    __CPROVER_ensures(g_bypass || vf_exc != 0 || g_lat == g_latval[__CPROVER_old(g_ncalls) + GX.ncalls - 1])
+    /*@ glob_latency_changed_by_the_answers_only */;
 
 #include "gen.c"
 
@@ -580,6 +745,29 @@ void harness(void)
     g_spb[k] = pick_zone();
   __CPROVER_assume(gk < 3 * SEGCAP);
   NetZoneImpl__get_interzone_route(pick_np(), pick_np(), IZ_DIR, &g_links, &g_lat, &g_sp);
+  VF_CANARY_POINT;
+}
+#endif
+
+#if defined(H_global) || defined(H_global_full) || defined(H_global_z0) || defined(H_global_z1) || defined(H_global_z2) || \
+    defined(H_global_z3) || defined(H_global_z4)
+void harness(void)
+{
+  setup_world();
+  setup_links(1);
+  g_netzones.k = g_nzbuf, g_netzones.cap = LBUF;
+  __CPROVER_assume(g_netzones.n <= 1);
+  g_nzbuf[0] = pick_zone();
+  g_bcalls   = 0;
+  __CPROVER_assume(g_bseg.n <= SEGCAP && g_blatval == g_blatval);
+  for (int j = 0; j < SEGCAP; j++)
+    g_bseg.l[j] = pick_link();
+#ifdef G_SRC_ZONE /* quick tier: one harness per zone of the source host (constant pointers: much faster), any destination */
+  g_np[5].englobing_zone_ = &g_z[G_SRC_ZONE];
+  NetZoneImpl__get_global_route_with_netzones(&g_np[5], pick_np(), &g_links, &g_lat, &g_netzones);
+#else
+  NetZoneImpl__get_global_route_with_netzones(pick_np(), pick_np(), &g_links, &g_lat, &g_netzones);
+#endif
   VF_CANARY_POINT;
 }
 #endif
